@@ -504,6 +504,14 @@ def step (st : St) (line : String) : St × String :=
           some s!"the device holds a session of a fabric that was removed while the handshake was in flight: {out}" else none)
       let ora := ora <|> (if raced ∧ ((parseCache (field out "dc")).getD []).any (fun r => r.fab == 1) then
           some s!"a resumption record of a fabric removed during the handshake is (back) in the device's cache: {out}" else none)
+      -- `gap=i`: the same state changes ran on the CONTROLLER (initiator) while it awaited the acknowledgement of
+      -- SigmaFinished: its cache must not hold a record of the removed fabric afterwards (C07: no resumption record
+      -- refers to a removed fabric), nor its session table a session of it
+      let igapped := (words out).contains "igapped"
+      let ora := ora <|> (if igapped ∧ ((parseCache (field out "cc")).getD []).any (fun r => r.fab == fab) then
+          some s!"a resumption record of a fabric removed during the handshake is (back) in the controller's cache: {out}" else none)
+      let ora := ora <|> (if igapped ∧ field out "ctl" ≠ "none" then
+          some s!"the controller holds a session of a fabric that was removed while the handshake was in flight: {out}" else none)
       -- `st'` = the model's state after the run (compared below when the run is predictable);
       -- afterwards the model continues from the caches the implementation reports (named byte
       -- strings become atoms), so that it can follow runs it could not predict
